@@ -244,6 +244,11 @@ func (c *Crew) DeleteMachine(ctx context.Context, mid string) error {
 // ProcessMsg processes the given message and returns the results,
 // which can then be processed by the crew's Result coupling.
 func (c *Crew) ProcessMsg(ctx context.Context, msg interface{}) (*Result, error) {
+	// Timer goroutines update the change cache (under this lock)
+	// whenever a timer fires.
+	c.Lock()
+	defer c.Unlock()
+
 	c.Logf("ProcessMsg %s", JS(msg))
 
 	// Some emitted messages are routed back to sheens.  Rather
